@@ -19,7 +19,7 @@ use crate::compiler::optimize::double_apply::remove_double_apply;
 use crate::compiler::optimize::{
     null_optimization, optimize_expr, run_optimizer, CompileContextWrapper, Optimization,
 };
-use crate::compiler::sexp::SExp;
+use crate::compiler::sexp::{AtomValue, NodeSel, SExp, SelectNode, ThisNode};
 use crate::compiler::StartOfCodegenOptimization;
 
 /// Captures the strategy for cl23 and above.
@@ -43,6 +43,20 @@ impl Strategy23 {
     pub fn new() -> Self {
         Strategy23 {}
     }
+}
+
+// The code handed to the post-codegen hooks is an expression, while
+// null_optimization(_, true) treats its argument as the tail of an operand
+// list.  When the expression is a quote form its contents are data and must
+// not be rewritten.
+fn null_optimization_of_expression(code: Rc<SExp>) -> (bool, Rc<SExp>) {
+    if let Ok(NodeSel::Cons(_, _)) =
+        NodeSel::Cons(AtomValue::Here(&[1]), ThisNode).select_nodes(code.clone())
+    {
+        return (false, code);
+    }
+
+    null_optimization(code, true)
 }
 
 impl Optimization for Strategy23 {
@@ -201,7 +215,7 @@ impl Optimization for Strategy23 {
         _helper: Option<&HelperForm>,
         code: Rc<SExp>,
     ) -> Result<Rc<SExp>, CompileErr> {
-        let (null_worked, result) = null_optimization(code.clone(), true);
+        let (null_worked, result) = null_optimization_of_expression(code.clone());
         let (double_worked, dbl_result) = remove_double_apply(result, true);
         let (brief_worked, brief_result) = brief_path_selection(dbl_result);
         if null_worked || double_worked || brief_worked {
@@ -244,7 +258,7 @@ impl Optimization for Strategy23 {
         _opts: Rc<dyn CompilerOpts>,
         generated: SExp,
     ) -> Result<SExp, CompileErr> {
-        let (null_worked, result) = null_optimization(Rc::new(generated.clone()), true);
+        let (null_worked, result) = null_optimization_of_expression(Rc::new(generated.clone()));
         let (double_worked, dbl_result) = remove_double_apply(result, true);
         let (brief_worked, brief_result) = brief_path_selection(dbl_result);
         if null_worked || double_worked || brief_worked {
